@@ -2098,7 +2098,7 @@ class VM:
                 raise JSRangeError("Invalid count value")
             if len(s) * count > 2**30 - 25:  # largest string length (as in V8)
                 raise JSRangeError("Invalid string length")
-            return s * count
+            return s * count if s else ""
 
         def startsWith(*args):
             search = to_str(args[0]) if args else "undefined"
